@@ -7,7 +7,9 @@ import (
 	"encoding/json"
 	"flag"
 	"fmt"
+	"math/rand"
 	"os"
+	"time"
 
 	"ergo.services/ergo/gen"
 
@@ -24,6 +26,7 @@ func cmdProcCore(args []string) int {
 	seed := fs.Int64("seed", 1, "seed")
 	name := fs.String("node", "vhpc@localhost", "node name")
 	debug := fs.Bool("debug", false, "debug")
+	free := fs.Int("free", 0, "free-running mode: number of executions of the scenario (no controller)")
 	fs.Parse(args)
 	pf, err := proccore.LoadPlans(*plans)
 	if err != nil {
@@ -47,6 +50,24 @@ func cmdProcCore(args []string) int {
 	ctl := vsched.New(vsched.Config{})
 	ctl.Debug = *debug
 	r := &proccore.Runner{Node: n, Core: n.(gen.Core), Ctl: ctl, Out: bw, Seed: *seed}
+	if *free > 0 {
+		rng := rand.New(rand.NewSource(*seed))
+		for i := 0; i < *free; i++ {
+			kill := time.Duration(rng.Intn(3000)) * time.Microsecond
+			hold := time.Duration(0)
+			if rng.Intn(3) == 0 {
+				hold = time.Duration(rng.Intn(200)) * time.Microsecond
+			}
+			if err := r.RunFree(&pf.Scenario, i+1, kill, hold); err != nil {
+				fmt.Fprintln(os.Stderr, "free", i, ":", err)
+				return 2
+			}
+		}
+		st := map[string]any{"plans": r.Plans, "steps": r.Steps, "stalls": r.Stalls, "max_overlap": r.MaxOverlap}
+		b, _ := json.Marshal(st)
+		fmt.Println(string(b))
+		return 0
+	}
 	for i := range pf.Plans {
 		if err := r.RunPlan(&pf.Scenario, &pf.Plans[i]); err != nil {
 			fmt.Fprintln(os.Stderr, "plan", pf.Plans[i].ID, ":", err)
